@@ -1,6 +1,6 @@
 use proc_macro2::TokenStream as TokenStream2;
 use quote::quote;
-use syn::{DataEnum, Error, Fields, FieldsNamed, FieldsUnnamed};
+use syn::{ext::IdentExt, DataEnum, Error, Fields, FieldsNamed, FieldsUnnamed};
 
 use crate::utils;
 
@@ -35,16 +35,17 @@ pub(super) fn generate_field_definitions(
                     .ok_or_else(|| Error::new_spanned(field, "Field must have a name"))?;
 
                 let field_type = utils::remove_lifetimes_from_type(&field.ty);
-                let field_name_str = field_name.to_string();
+                // A raw identifier (`r#type`) names the field `type`.
+                let field_name_str = field_name.unraw().to_string();
 
                 let static_name = if let Some(variant_ident) = variant_prefix {
                     quote::format_ident!(
                         "FIELD_{}_{}",
-                        variant_ident.to_string().to_uppercase(),
-                        field_name.to_string().to_uppercase()
+                        variant_ident.unraw().to_string().to_uppercase(),
+                        field_name_str.to_uppercase()
                     )
                 } else {
-                    quote::format_ident!("FIELD_{}", field_name.to_string().to_uppercase())
+                    quote::format_ident!("FIELD_{}", field_name_str.to_uppercase())
                 };
 
                 let comments = utils::extract_doc_comments(&field.attrs);
@@ -89,7 +90,7 @@ pub(super) fn generate_enum_variant_definitions(
         // Only support unit variants (no associated data).
         match &variant.fields {
             Fields::Unit => {
-                let variant_name = variant.ident.to_string();
+                let variant_name = variant.ident.unraw().to_string();
                 let comments = utils::extract_doc_comments(&variant.attrs);
                 let comment_objects = generate_comment_objects(&comments, crate_path);
                 let variant_ref = quote! {
